@@ -21,16 +21,19 @@ const caseTail = "Definition M := Eval vm_compute in mismatches check_case cases
 	"Definition NCAP := Eval vm_compute in (count_if is_cap cases : Z).\nPrint NCAP.\n" +
 	"Definition NRACE := Eval vm_compute in (count_if is_race cases : Z).\nPrint NRACE.\n" +
 	"Definition NRACELOST := Eval vm_compute in (count_if race_lost cases : Z).\nPrint NRACELOST.\n" +
+	"Definition NREPLYLOOP := Eval vm_compute in (count_if is_replyloop cases : Z).\nPrint NREPLYLOOP.\n" +
+	"Definition NREFUSED := Eval vm_compute in (sum_Z replyloop_failed_writes cases : Z).\nPrint NREFUSED.\n" +
+	"Definition NALPHABET := Eval vm_compute in (count_if is_alphabet cases : Z).\nPrint NALPHABET.\n" +
 	"Definition NSYS := Eval vm_compute in (count_if is_sys cases : Z).\nPrint NSYS.\n" +
 	"Definition NSOCKETS := Eval vm_compute in (sum_Z fwd_sockets cases : Z).\nPrint NSOCKETS.\n"
 
-// runUDP: -extra selects parts ("pure,fwd,full,sys,idle,race"; default all).  -n scales the pure part;
+// runUDP: -extra selects parts ("pure,fwd,full,replyloop,alphabet,sys,idle,race,heartbeat"; default all).  -n scales the pure part;
 // the other parts have fixed scenario lists (longer in the thorough tier).
 func runUDP(cfg *hx.RunCfg) error {
 	hx.Quiet()
 	parts := cfg.Extra
 	if parts == "" {
-		parts = "pure,fwd,full,sys,idle,race"
+		parts = "pure,fwd,full,replyloop,alphabet,sys,idle,race,heartbeat"
 	}
 	has := func(p string) bool { return strings.Contains(","+parts+",", ","+p+",") }
 	g := hx.NewGen(cfg.Seed)
@@ -56,6 +59,16 @@ func runUDP(cfg *hx.RunCfg) error {
 		go func() { c, r := runRace(cfg, hx.NewGen(cfg.Seed+2000)); raceDone <- raceOut{c, r} }()
 	}
 
+	type hbOut struct {
+		cases []string
+		fs    []failure
+	}
+	var hbDone chan hbOut
+	if has("heartbeat") {
+		hbDone = make(chan hbOut, 1)
+		go func() { c, f := runHeartbeat(cfg, hx.NewGen(cfg.Seed+3000)); hbDone <- hbOut{c, f} }()
+	}
+
 	if has("pure") {
 		n := cfg.N
 		for i := 0; i < n; i++ {
@@ -73,6 +86,13 @@ func runUDP(cfg *hx.RunCfg) error {
 		cases = append(cases, runFull(cfg, g, dist, &fails)...)
 		cases = append(cases, capCase(dist, &fails)...)
 	}
+	if has("replyloop") {
+		cases = append(cases, runReplyLoop(cfg, g, dist, &fails)...)
+		cases = append(cases, runReplyBig(cfg, dist, &fails)...)
+	}
+	if has("alphabet") {
+		cases = append(cases, runAlphabet(cfg, g, dist, &fails)...)
+	}
 	if has("sys") {
 		cases = append(cases, runSys(cfg, g, dist, &fails)...)
 	}
@@ -80,6 +100,13 @@ func runUDP(cfg *hx.RunCfg) error {
 		cases = append(cases, <-idleDone...)
 	}
 
+	if hbDone != nil {
+		ho := <-hbDone
+		cases = append(cases, ho.cases...)
+		for _, f := range ho.fs {
+			addFail(&fails, f)
+		}
+	}
 	if raceDone != nil {
 		ro := <-raceDone
 		cases = append(cases, ro.cases...)
